@@ -41,7 +41,7 @@ TARGETS = [('path', 4), ('existing', 4), ('handle', 2), ('dirty_handle', 2), ('b
 
 def gen_plan(rng, tier, index):
     kind = rng.wpick([('rdms', 4), ('data', 3), ('result', 2)])
-    plan = {'kind': kind, 'decorate': rng.subset(['unicode', 'naninf', 'matrix', 'nomeasure', 'floatdesc', 'emptystr', 'ragged'], 0.0, 0.8),
+    plan = {'kind': kind, 'decorate': rng.subset(['unicode', 'naninf', 'matrix', 'nomeasure', 'floatdesc', 'emptystr', 'ragged', 'emptyarr'], 0.0, 0.8),
             'dec_seed': rng.randrange(10 ** 6)}
     if kind == 'rdms':
         plan['family'] = gen_family(rng, n_cond=(2, 14) if rng.chance(0.4) else (2, 8), n_rdm=(1, 6))
@@ -305,6 +305,12 @@ def _decorate(obj, plan, kind):
         o.descriptors['count'] = 7
     if 'emptystr' in dec:
         o.descriptors['note'] = ''
+    if 'emptyarr' in dec:
+        o.descriptors['excluded'] = np.array([])              # a zero-length array is a value, not an absent one
+        o.descriptors['excluded_idx'] = np.array([], dtype=int)
+        o.descriptors['scalar0'] = 0                          # ... and so are zero, False and an all-zero vector
+        o.descriptors['flag'] = False
+        o.descriptors['zeros'] = np.zeros(3)
     if 'ragged' in dec:
         # per-item arrays of different lengths: cannot form one numpy array, stored element by element
         per_col['ragged'] = [np.arange(1 + (i * 7) % 3) * 1.5 + i for i in range(n_col)]
